@@ -386,6 +386,12 @@ def add_draws(c, rng, short_p=0.04):
         pre = [rng.randrange(6) for _ in range(rng.randrange(0, 9))]
     else:
         pre = [(1 << 63) - 1, (1 << 63) - 1, 1 << 62]
+    if rng.random() < 0.06:
+        # a random source stuck on one value for a long time (a low-entropy source, a long run of collisions with hosts that are
+        # already picked): the selection keeps drawing until a free host comes up, however long that takes - it never settles for
+        # an occupied one
+        x = rng.randrange(4)
+        pre = [0, 1, 2, 3][:rng.randrange(1, 5)] + [x] * rng.choice([70, 300, 700, 1300])
     if rng.random() < short_p:
         pre = pre[:rng.randrange(0, len(pre) + 1)]
         c["draws"] = list(pre)
@@ -523,6 +529,21 @@ def gen_directed(ck, ttl):
         shards = [(rng.choice([1, 100000, 1 << 32]), 1, rng.sample(range(1, 9), n))]
         c = {"tick": T0, "hosts": hosts, "plogs": mk_plogs(hosts, shards, rng), "shards": shards, "regions": (regs, counts), "origin": "G:region names"}
         cases.append(add_draws(c, rng, short_p=0.0))
+    # S: a random source that is stuck: after j distinct draws the source repeats a value that is already picked for a very long time
+    # (70 .. 1300 draws), then moves on; 4..6 members from ONE region with as many or more suitable hosts: the selection must keep
+    # drawing until a free host comes up - distinct hosts, however long it takes
+    for _ in range(24 if quick else 300):
+        n = rng.choice([4, 4, 5, 6])
+        nh = n + rng.randrange(0, 3)
+        hosts = mk_fleet([(1, live, ())] * nh + [(2, live, ())] * rng.randrange(0, 2), rng)
+        shards = [(rng.choice([1, 100000]), 1, rng.sample(range(1, 12), n))]
+        c = {"tick": T0, "hosts": hosts, "plogs": mk_plogs(hosts, shards, rng), "shards": shards, "regions": ([1], [n]), "origin": "S:stuck random source"}
+        j = rng.randrange(1, n)
+        pre = list(range(j)) + [rng.randrange(j)] * rng.choice([70, 300, 700, 1300])
+        c["draws"] = pre + ramp(n_selections(c) + 2)
+        c["ramped"] = True
+        c["pre"] = pre
+        cases.append(c)
     return cases
 
 
